@@ -288,11 +288,14 @@ fn gen_scenario(kind: Kind, w: &mut W) -> Scenario {
             late.push(None);
         }
         Kind::C18 => {
-            let n = if scale == 15 { 6 + t.draw(25) } else { 2 + t.draw(4) };
+            // one world in five hundred: a flooder with tens of thousands of calls, and a quiet
+            // connection whose call arrives only after more than 2^15 (or 2^16) others were served
+            let wide = scale == 11 && t.draw(32) == 31;
+            let n = if wide { 2 + t.draw(3) } else if scale == 15 { 6 + t.draw(25) } else { 2 + t.draw(4) };
             let n_flood = 1 + t.draw(n - 1);
             for c in 0..n {
                 if c < n_flood {
-                    let ncalls = 20 + t.draw(41);
+                    let ncalls = if wide { [33_500usize, 66_500][t.draw(2)] + t.draw(300) } else { 20 + t.draw(41) };
                     // a flooder's calls may be oneway (nothing is written back for them): none / all / mixed
                     let ow = t.draw(4);
                     let calls = (0..ncalls).map(|_| CallSpec::Echo { pad: t.draw(12), oneway: ow == 2 || (ow == 3 && t.draw(2) == 1) }).collect();
@@ -301,7 +304,7 @@ fn gen_scenario(kind: Kind, w: &mut W) -> Scenario {
                 } else {
                     // single caller: one complete call, appearing once flooder f has been served k replies
                     let f = t.draw(n_flood);
-                    let k = t.draw(20);
+                    let k = if wide { [32_700usize, 65_400][t.draw(2)] + t.draw(400) } else { t.draw(20) };
                     let call = if (scale == 12 || scale == 13) && !yield_first { CallSpec::Len { pad: big_pad(t, scale == 13), oneway: false } } else { CallSpec::Echo { pad: t.draw(8), oneway: false } };
                     clients.push(ClientSpec { cid: 10 + c as u32, calls: vec![call], faults: vec![], pingpong: false, closes: false, after_quiet: false });
                     late.push(Some((f, k)));
